@@ -232,7 +232,11 @@ def broadcast_binary_op(a1: ArrayOrScalar, a2: ArrayOrScalar,
                 array: ArrayOrScalar,
                 expr: ScalarExpression | Bool
             ) -> ScalarExpression | Bool:
-        if ((isinstance(array, Array | np.generic))
+        if isinstance(array, np.bool_) and array.dtype != result_dtype:
+            # a boolean constant is not an arithmetic expression, and
+            # hence cannot be the operand of a type cast
+            expr = result_dtype.type(expr)
+        elif ((isinstance(array, Array | np.generic))
                 and array.dtype != result_dtype):
             # Loopy's type casts don't like casting to bool
             assert result_dtype != np.bool_
